@@ -40,22 +40,48 @@ Fixpoint first_diff (i : Z) (a b : list opres) : Z :=
   | _, _ => i
   end.
 
-Definition model_run (c : case) (ops : list op) : list opres :=
-  run (est_of (c_rate c)) true (c_g (c_cfg c)) (c_nsamp (c_cfg c)) (init_state (c_g (c_cfg c))) ops.
+(* A case is a sequence of runs on ONE LanceroSource object (stop, new geometry, start again).  What a run
+   delivers must not depend on the previous run, except for what the source carries over by design: the running
+   frame number, the external-trigger level and the time of the last block; the Mix objects and the channel order
+   table are made afresh.  Every run is compared with the model of THAT run's geometry. *)
+Record carry := { y_next : Z; y_ext : bool; y_prev : Z; y_knext : Z; y_kext : bool }.
+Definition carry0 : carry := {| y_next := 0; y_ext := false; y_prev := 0; y_knext := 0; y_kext := false |}.
 
-(* (code, index of the first diverging operation) *)
-Definition verdict (c : case) : Z * Z :=
+Definition model_start (c : case) (y : carry) : state :=
+  start_state (c_g (c_cfg c)) (y_next y) (y_ext y) (y_prev y).
+Definition model_run (c : case) (y : carry) (ops : list op) : list opres :=
+  run (est_of (c_rate c)) true (c_g (c_cfg c)) (c_nsamp (c_cfg c)) (model_start c y) ops.
+
+(* (code, index of the first diverging operation), and what the run leaves behind *)
+Definition verdict1 (c : case) (y : carry) : (Z * Z) * carry :=
   match c_obs c with
   | Hist h =>
-      let d := first_diff 0 (map snd h) (model_run c (map fst h)) in
-      (verdict_code (d =? -1) (C04_check (c_cfg c) h), d)
+      let ops := map fst h in
+      let d := first_diff 0 (map snd h) (model_run c y ops) in
+      let e := run_end (est_of (c_rate c)) true (c_g (c_cfg c)) (c_nsamp (c_cfg c)) (model_start c y) ops in
+      let k := C04_end (c_cfg c) (y_knext y) (y_kext y) h in
+      ((verdict_code (d =? -1) (C04_check_from (c_cfg c) (y_knext y) (y_kext y) h), d),
+       {| y_next := d_next (s_d e); y_ext := d_ext (s_d e); y_prev := d_prev (s_d e);
+          y_knext := k_next k; y_kext := k_ext k |})
   | Crashed ops k =>
-      let m := model_run c ops in
+      let m := model_run c y ops in
       let agree := match last m (RMix true) with RPanic k' => pkind_eqb k k' | _ => false end in
       (* a crash is never an acceptable answer to a well-formed delivery *)
       let S := stream_of ops in
-      (verdict_code agree (negb (stream_wf (c_cfg c) S && stamps_increasing ops)), zlen m - 1)
+      ((verdict_code agree (negb (stream_wf (c_cfg c) S && stamps_increasing ops)), zlen m - 1), y)
   end.
+
+Definition verdict (c : case) : Z * Z := fst (verdict1 c carry0).
+
+(* consecutive runs: the first run that is not in order decides; its operation index is offset by 1000*run *)
+Fixpoint verdict_runs_from (y : carry) (i : Z) (rs : list case) : Z * Z :=
+  match rs with
+  | [] => (0, -1)
+  | c :: rest =>
+      let '((code, d), y') := verdict1 c y in
+      if code =? 0 then verdict_runs_from y' (i + 1000) rest else (code, i + d)
+  end.
+Definition verdict_runs (rs : list case) : Z * Z := verdict_runs_from carry0 0 rs.
 
 (* ---------- compact constructors used by the generated files ---------- *)
 Definition byte_of (w k : Z) : Z := (w / 2 ^ (8 * k)) mod 256.
